@@ -26,6 +26,7 @@ type Worker struct {
 	deadAt time.Time
 	stderr string // path
 	stdout *lockedBuf
+	kind   workerKind
 }
 
 type lockedBuf struct {
@@ -53,7 +54,6 @@ var (
 	portFirst  int
 	scratchDir string
 	workerMoQ  = true
-	workerTLS  = true
 	workerMem  = 6144
 	spawned    atomic.Int64
 )
@@ -78,7 +78,7 @@ func nextPortBase() int {
 }
 
 // startWorker spawns a worker on a free port block and waits until it is ready.
-func startWorker() (*Worker, error) {
+func startWorker(kind workerKind) (*Worker, error) {
 	var lastErr error
 	for attempt := 0; attempt < 40; attempt++ {
 		base := nextPortBase()
@@ -86,14 +86,15 @@ func startWorker() (*Worker, error) {
 		if err != nil {
 			return nil, err
 		}
-		w := &Worker{ports: Ports{Base: base}, dir: dir, dead: make(chan struct{}), stdout: &lockedBuf{}}
+		w := &Worker{ports: Ports{Base: base}, dir: dir, dead: make(chan struct{}), stdout: &lockedBuf{}, kind: kind}
 		w.stderr = filepath.Join(dir, "stderr.txt")
 		ef, err := os.Create(w.stderr)
 		if err != nil {
 			return nil, err
 		}
 		cmd := exec.Command(os.Args[0], "-worker", "-base", fmt.Sprint(base), "-dir", dir,
-			fmt.Sprintf("-moq=%v", workerMoQ), fmt.Sprintf("-tls=%v", workerTLS), "-mem", fmt.Sprint(workerMem))
+			fmt.Sprintf("-moq=%v", workerMoQ), fmt.Sprintf("-tls=%v", kind.TLS == 2), fmt.Sprintf("-rtsps=%v", kind.TLS == 1),
+			"-world", map[bool]string{false: "closed", true: "open"}[kind.Open], "-mem", fmt.Sprint(workerMem))
 		cmd.Stderr = ef
 		cmd.Env = append(os.Environ(), "GOMAXPROCS=4", "GOTRACEBACK=all")
 		so, err := cmd.StdoutPipe()
